@@ -565,3 +565,17 @@ pub fn selftest() -> i32 {
         1
     }
 }
+
+/// debugging aid: `lv ctrl <replay.json> <ctrl>` prints the outcomes of a litmus program under a control placement
+pub fn ctrl_debug(path: &str, ctrl: u8) -> i32 {
+    let v: Value = serde_json::from_str(&std::fs::read_to_string(path).unwrap()).unwrap();
+    let p: lit::Prog = serde_json::from_value(v["program_json"].clone()).unwrap();
+    let r = lit::run(&p, &lit::Cfg { iter_cap: 100_000, keep_paths: true, keep_seq: true, ctrl, ..Default::default() });
+    println!("{}", p.s());
+    println!("iterations {} panic {:?}", r.iters, r.panic);
+    for (i, o) in r.seq.iter().enumerate() {
+        println!("  {:?}   order {:?}", o, r.order_seq[i]);
+    }
+    println!("must (main atomic): {:?}", rc11::outcomes_sc_main_atomic(&p));
+    0
+}
